@@ -113,6 +113,7 @@ pub fn c01(run: &mut Run) {
     for l in ["first_segment", "last_segment", "synthetic_0pct", "synthetic_100pct_hold", "easing_inherited", "override_active", "reverse_pass", "cycle_ge_1", "easing_on_kf_omitting_prop"] {
         run.require_label("c01_model", l, 0.01);
     }
+    crate::fuzzdrv::campaign(run, "fz_c01", 1_600_000);
 }
 
 // =============================================================================================
@@ -456,7 +457,7 @@ pub fn c08(run: &mut Run) {
     for l in ["some_prop_unanimated", "all_unanimated_or_empty", "not_started", "active", "ended", "reversing_or_repeating"] {
         run.require_label("c08_sentinel", l, 0.05);
     }
-    crate::c_animator::c08_animator(run);
+    mv_core::c_animator::c08_animator(run);
 }
 
 // =============================================================================================
@@ -787,6 +788,7 @@ pub fn c10(run: &mut Run) {
     for l in ["upto_delay", "first_stretch", "first_pass_beyond_first_stretch", "reverse_pass", "later_cycle", "ended"] {
         run.require_label("c10_twin", l, 0.05);
     }
+    crate::fuzzdrv::campaign(run, "fz_c10", 1_200_000);
 }
 
 // =============================================================================================
@@ -885,6 +887,7 @@ pub fn c11(run: &mut Run) {
     );
     run.require_label("c11_permutation", "non_identity", 0.5);
     run.require_label("c11_permutation", "ge_4_keyframes", 0.3);
+    crate::fuzzdrv::campaign(run, "fz_c11", 1_200_000);
 }
 
 // =============================================================================================
